@@ -499,6 +499,39 @@ theorem setters_write_through (e : Eph) (k : Int) (m : Method) (date : ℝ) :
     (ephStep e (.setOrder k)).pts = e.pts ∧ (ephStep e (.setMethod m)).pts = e.pts :=
   ⟨rfl, rfl, rfl, rfl, rfl, rfl⟩
 
+/-- an operation that is not a setting of the order or the method -/
+def EphOp.keepsSettings : EphOp → Prop
+  | .interpolate _ => True
+  | .convert _ => True
+  | .setOrder _ => False
+  | .setMethod _ => False
+
+/-- **The order and the method last set survive everything that is not a new setting**: whatever interpolations and
+in-place frame / form conversions follow (the interpolator existing or not), the ephemeris still holds, reads back and
+interpolates with the order and method set last — a conversion re-reads the points, it never goes back to the values
+given at construction. -/
+theorem settings_survive_conversion (e : Eph) (ops : List EphOp) (hops : ∀ op ∈ ops, op.keepsSettings) :
+    (ops.foldl ephStep e).order = e.order ∧ (ops.foldl ephStep e).method = e.method := by
+  induction ops generalizing e with
+  | nil => exact ⟨rfl, rfl⟩
+  | cons op rest ih =>
+    have hr := ih (ephStep e op) (fun o ho => hops o (List.mem_cons_of_mem _ ho))
+    have h1 : (ephStep e op).order = e.order ∧ (ephStep e op).method = e.method := by
+      have hk := hops op (List.mem_cons_self ..)
+      cases op with
+      | interpolate d => simp [ephStep, interpolate_state]
+      | convert c => exact ⟨rfl, rfl⟩
+      | setOrder k => exact absurd hk (by simp [EphOp.keepsSettings])
+      | setMethod m => exact absurd hk (by simp [EphOp.keepsSettings])
+    simp only [List.foldl_cons]
+    exact ⟨hr.1.trans h1.1, hr.2.trans h1.2⟩
+
+/-- the hypothesis is met by a non-trivial history: live interpolator, order 4 and linear set, then a conversion and an interpolation -/
+example (e : Eph) (c : Pt → Pt) (d : ℝ) :
+    ([EphOp.convert c, .interpolate d].foldl ephStep ((e.setOrder 4).setMethod .linear)).order = 4 ∧
+    ([EphOp.convert c, .interpolate d].foldl ephStep ((e.setOrder 4).setMethod .linear)).method = .linear :=
+  settings_survive_conversion _ _ (by intro op h; simp at h; rcases h with rfl | rfl <;> trivial)
+
 /-- every state reachable from the constructor by interpolations and frame/form changes is fresh -/
 theorem fresh_reachable (pts : List Pt) (m : Option Method) (o : Option Int) (ops : List EphOp) :
     Fresh (ops.foldl ephStep (Eph.new pts m o)) := by
